@@ -245,6 +245,23 @@ def check_linear(c):
             Fd = teneva.func_int_full(ref.dense(cs_))
             res.check(np.abs(Fd / sc - ref.dense(A)).max() <= 1e-12 * max(1.0, np.abs(ref.dense(A)).max()), 'linear.scaled.full', dict(case, scale=sc),
                       'func_int_full does not scale', tags)
+        # equivalent argument forms: bounds as lists / arrays / NumPy scalars, points as lists, Fortran-ordered / integer-typed cores
+        res.ev()
+        okf = True
+        g0 = teneva.func_get(X, A, a, b)
+        for af, bf_ in (([a] * d, [b] * d), (np.array([a] * d), np.array([b] * d)), (np.float64(a), np.float64(b)), ([a] * d, b)):
+            okf = okf and np.array_equal(teneva.func_get(X, A, af, bf_), g0)
+        okf = okf and np.array_equal(teneva.func_get(X.tolist(), A, a, b), g0) and np.array_equal(teneva.func_get(np.asfortranarray(X), [np.asfortranarray(G) for G in A], a, b), g0)
+        okf = okf and abs(teneva.func_sum(A, [a] * d, np.array([b] * d)) - sv) <= 1e-14 * (1 + abs(sv))
+        Zf = teneva.func_gets(A, [3] * d)
+        Zg = teneva.func_gets(A, 3.0)
+        Zh = teneva.func_gets(A, np.array([3] * d))
+        okf = okf and ref.core_bytes(Zf) == ref.core_bytes(Zg) == ref.core_bytes(Zh)
+        ci = [np.round(G * 4).astype(np.int64) for G in cores]
+        cf = [np.round(G * 4) for G in cores]
+        okf = okf and all(np.abs(x - y_).max() <= 1e-13 * (1 + np.abs(y_).max()) for x, y_ in zip(teneva.func_int(ci), teneva.func_int(cf)))
+        okf = okf and np.abs(teneva.func_int_full(ref.dense(cf).astype(np.int64)) - teneva.func_int_full(ref.dense(cf))).max() <= 1e-12 * (1 + np.abs(ref.dense(cf)).max())
+        res.check(bool(okf), 'forms', case, 'an equivalent form of the bounds / points / grid size / core dtype changes the result', tags)
         # additivity / homogeneity of the coefficient transform
         A2 = teneva.func_int([2.5 * cores[0]] + cores[1:])
         res.check(np.abs(ref.dense(A2) - 2.5 * ref.dense(A)).max() <= T, 'linear.homogeneous', case, 'func_int not homogeneous', tags)
